@@ -18,11 +18,13 @@ func init() {
 		Assumptions: []string{
 			"H264 frames A: 12 shapes of up to 10 packets mixing single NAL units, STAP-A and FU-A trains (reference encoder); frames B: single / STAP-A / FU-A train / FU-A train + single; Annex-B and AVC output",
 			"AV1 frames A: 8 OBU sequences packetized by AV1Payloader at small MTUs into up to 10 packets with Z/Y chains; frames B start with Z=0, with and without N=1",
+			"large abandoned fragments: a fragmented unit / OBU of 70 KB, 1 MiB + 1 KB and 3 MB whose end (or start, or one middle fragment) is lost, at MTU 1200, followed by each frame-B shape; for H264 also abandoned units that leave 2^16..2^22 minus {0,1,600,1197,1199} bytes buffered, followed by a frame B with full-size fragments",
 			"ALL loss subsets of A (2^n, n <= 10) delivered in order; garbage: every sequence of up to 2 strings before frame A and 0-1 string between the delivered part of A and frame B, from an 8 (H264) / 12 (AV1) string corpus (nil, empty, orphan fragments, truncated aggregation, start of a never-finished fragment)",
 		},
 		Scenarios: []mc.Scenario{
 			{Name: "h264-loss-then-intact-frame", Tiers: "qt", ShardDepth: 4, Run: c15H264},
 			{Name: "av1-loss-then-intact-frame", Tiers: "qt", ShardDepth: 4, Run: c15AV1},
+			{Name: "large-abandoned-fragments", Tiers: "qt", ShardDepth: 2, Run: c15Large},
 		},
 	})
 }
@@ -209,4 +211,66 @@ func c15AV1(c *mc.Ctx) {
 	}
 	c15Run(c, func() rtp.Depacketizer { return &codecs.AV1Depacketizer{} }, garbage, frameA, mask, between, frameB, desc)
 	c.Outcome(fmt.Sprintf("A=%d B=%d", ai, bi))
+}
+
+// c15Large: a very large fragmented unit of frame A is abandoned (one fragment lost).
+func c15Large(c *mc.Ctx) {
+	av1 := c.Bool()
+	size := mc.From(c, []int{70000, 1<<20 + 1024, 3 << 20})
+	if av1 && size > 2<<20 {
+		return // AV1Depacketizer re-copies its buffer per fragment (quadratic): 1 MiB is enough to pass every plausible cap
+	}
+	lost := c.Pick(3) // 0 the last fragment, 1 the first, 2 one in the middle
+	var frameA, frameB [][]byte
+	var mk func() rtp.Depacketizer
+	if av1 {
+		frameA = cloneAll((&codecs.AV1Payloader{}).Payload(1200, ref.AV1Stream([]ref.OBU{{Type: 6, Payload: fill(size, 1)}}, false)))
+		bi := c.Pick(2)
+		sb := []c15AV1Shape{{6, []ref.OBU{{Type: 6, Payload: fill(12, 0x51)}}}, {200, []ref.OBU{{Type: 1, Payload: fill(3, 0x52)}, {Type: 6, Payload: fill(9, 0x53)}}}}[bi]
+		frameB = cloneAll((&codecs.AV1Payloader{}).Payload(uint16(sb.mtu), ref.AV1Stream(sb.obus, false)))
+		mk = func() rtp.Depacketizer { return &codecs.AV1Depacketizer{} }
+	} else {
+		// the bytes left behind by the abandoned unit are steered to sit just below a power of
+		// two (where a maintainer would put a cap), and frame B comes with full-size fragments
+		if k := c.Pick(8); k > 0 {
+			target := 1<<uint(15+k) - mc.From(c, []int{0, 1, 600, 1197, 1199})
+			size = target + 1 + 500 // header byte + a last fragment of 500 bytes that is lost
+			lost = 0
+		}
+		u := ref.H264Unit(5, 3, size, 1)
+		var cuts []int
+		for k := 1198; k < size-1-500; k += 1198 {
+			cuts = append(cuts, k)
+		}
+		cuts = append(cuts, size-1-500)
+		frameA = ref.H264Fragment(u, cuts)
+		if c.Bool() {
+			frameB = c15H264Frame(mc.From(c, c15H264B), 2)
+		} else {
+			frameB = ref.H264Fragment(ref.H264Unit(1, 2, 3001, 7), []int{1198, 2396})
+		}
+		avc := c.Bool()
+		mk = func() rtp.Depacketizer { return &codecs.H264Packet{IsAVC: avc} }
+	}
+	drop := []int{len(frameA) - 1, 0, len(frameA) / 2}[lost]
+	d := mk()
+	for i, p := range frameA {
+		if i != drop {
+			_, _ = d.Unmarshal(p)
+		}
+	}
+	fresh := mk()
+	for i, p := range frameB {
+		got, gerr := d.Unmarshal(clone(p))
+		want, werr := fresh.Unmarshal(clone(p))
+		if (gerr == nil) != (werr == nil) || !bytes.Equal(got, want) {
+			c.Failf("resync-differs", "av1=%v: after a %d-byte fragmented unit of frame A with fragment %d of %d lost, packet %d of the intact frame B decodes to %s (err %v); a fresh depacketizer gives %s (err %v)", av1, size, drop, len(frameA), i, hx(got), gerr, hx(want), werr)
+		}
+	}
+	c.Ops(len(frameA) + 2*len(frameB))
+	if c.Verbose() {
+		c.Notef("av1=%v frame A: one unit of %d bytes in %d packets, packet %d lost; frame B %s", av1, size, len(frameA), drop, hxs(frameB))
+	}
+	c.NonTrivial()
+	c.Outcome(fmt.Sprintf("av1=%v size=%d", av1, size))
 }
